@@ -192,6 +192,13 @@ def run(ctx, rep):
     check_alias_safety(fx, rep)
     check_create_guard(fx, rep)
     check_deduction(fx, rep)
+    # what is handed back and paid out at the end of a transaction must add up to what was deducted:
+    # C09's order rule (reimbursement after the calldata floor) and payment amounts
+    import engine
+    import c09
+    sub = engine.SubReport(rep, 'C09')
+    c09.check_floor(fx, sub)
+    c09.check_payments(fx, sub)
     rep.assume('database-layer balance changes (State::increment_balances / drain_balances, CacheDB) are outside a transaction and outside this property')
 
 
